@@ -156,6 +156,17 @@ CHECKS = {
         note='Lean kernel + standard axioms; totality of the C parsers over all byte strings is sampled by the fuzzing, not proved: only the NPD scanner is modelled (Model/NpdScan.lean), tied '
              'through the loader\'s own `expected N fields; found M` messages; libyaml is trusted; allocations above 1 GiB are refused by the sanitizer run-time (ENOMEM paths).',
         ref='DESIGN.md §6 C09'),
+    'C11': dict(
+        technique='Lean 4 proof (errno table regenerated from the C source and decided against the manual; single-callback model of the reporting routine; frame theorems of the object models for refused calls) + sweep of invalid / boundary calls with state digests + contract read off random histories',
+        text='The category -> errno switch of _vnaerr_verror is re-extracted on every run and proved equal to the table of vnaerr(3), with distinct errnos for the non-system classes; the '
+             'reporting routine calls an installed error function exactly once (also when the message cannot be formatted) and never otherwise; refused calls return the object they got: '
+             'vnadata indices / resize / set_type / add_frequency / convert, property set / delete / set_subtree, parameter delete, calibration delete, failed solve (theorems of C05, '
+             'C13, C15, C16, C20). On the compiled C: about 140 invalid, boundary and inconsistent calls over all object kinds: failure value, documented errno class, exactly one '
+             'callback (none for the documented silent queries), unchanged state digest, object usable and freed without residue afterwards; the same contract on every line of random '
+             'vnadata and vnacal histories; failed solve completed later; refused add_calibration; refused saves.',
+        note='Lean kernel + standard axioms; tools/tr_tables.py (clang AST) for the table; the per-call errno classes are transcribed from the manual pages; vnadata_init empties the object '
+             'before validating (documented as "usable", not "unchanged"); the callback model covers _vnaerr_verror only - that each failing path calls it once is decided by the sweep.',
+        ref='DESIGN.md §6 C11'),
     'C12': dict(
         technique='Lean 4 proof (retry equivalence and invariant preservation of partially completed extensions, on the vnadata model of C15) + exhaustive single-allocation-failure injection over scripted histories of the compiled C',
         text='Theorems for every object, size and stopping point: what a failed vnadata_resize leaves behind (extensions complete up to the failing stage, the failing one '
